@@ -16,8 +16,7 @@ CFG = {'assumptions': ["every position, size and n stays below 2^31 - 64 (Go's i
         'bitmap.Fmt': 'bitmap.Fmt on an integer / a slice of integers of every kind (and on non-integer types)',
         'bitmap.Of/query': 'bitmap.Of, then IndexRank64+Rank64, IndexRank128+Rank128, NextOne, PrevOne on the result',
         'bitmap.Builder/query': 'a Builder history, then the same four queries on Builder.Words',
-        'bitmap.Of/any': 'bitmap.Of on arbitrary int32 lists (panic allowed and specified)',
-        'bitmap.OfMany/any': 'bitmap.OfMany on arbitrary segment lists of equal length',
+        'bitmap.OfMany/asOf': 'bitmap.OfMany(subs, sizes) compared with bitmap.Of(shifted concatenation, sum of sizes): only whether they agree',
         'bitmap.Builder': 'bitmap.NewBuilder + Builder.Extend / Builder.Set history, Words and Offset after every call'},
  'rule': 'cases = Of: every subset of {0,1,62,63,64,65,127,128} x 18 choices of n (absent, negative down to -2^31, smaller, last+1, '
          'larger, word-aligned) + random ascending lists in 5 styles (dense, small gaps, word boundaries, gaps > 3 '
@@ -29,8 +28,7 @@ CFG = {'assumptions': ["every position, size and n stays below 2^31 - 64 (Go's i
          'and the first indices outside (panic); Fmt on every uint8 and int8 value, on 1/2/4/8-byte signed and unsigned '
          'integers single and in slices of 0..5 (boundaries, single bits, complements, random), on Of(...) bitmaps, on '
          'non-integer types; Rank64/Rank128/NextOne/PrevOne on Of(ps,n) and on Builder.Words (i at / next to a set position, on word '
-         'edges, random; e = end, = i, i+1..i+65, random); Of on arbitrary lists of 0..8 positions '
-         '(unsorted, negative, last element below the maximum, n around the maximum) and OfMany on arbitrary segments (positions >= size '
-         'anywhere, negative sizes): panic exactly when a position is outside the allocated bits. Non-trivial: '
+         'edges, random; e = end, = i, i+1..i+65, random); OfMany against Of(shifted concatenation, sum of sizes) with positions >= size in any '
+         'segment (non-ascending concatenations, panics): only the agreement of the two calls is observed. Non-trivial: '
          'non-empty position list / bitmap with a 1-bit / probed word neither 0 nor all-ones / >1 segment with a '
          'position / >1 call; distinct = distinct (op,args)'}
